@@ -29,6 +29,8 @@ SCENARIOS = [('create_enddef', 1), ('create_enddef', 2), ('create_close', 1), ('
              ('redef_move', 1), ('redef_move', 2), ('wait_mixed', 1), ('wait_mixed', 2), ('wait_puts', 2), ('wait_gets', 2),
              ('wait_indep', 1), ('wait_indep', 2), ('data_mode_meta', 1), ('data_mode_meta', 2),
              ('open_read', 1), ('open_read', 2), ('open_bighdr', 1), ('zero_req', 2), ('hcoll_header', 2)]
+# extra classes injected at every position of these site functions also in the quick tier (witness of a known finding)
+EXTRA_CLASSES = {'hdr_fetch': ['MPI_ERR_AMODE']}
 LATER_LABELS = ('wait_all_mixed', 'wait_mixed')      # API calls whose request mix has a read phase after the write phase
 # Rows of the header PARSER whose status is discarded (`if (err != NC_NOERR) break;` in the dimid loop of
 # hdr_get_NC_var, then `err` is assigned again).  The table row says "dropped", and that is what the C does with
@@ -116,7 +118,7 @@ def map_frames(frames, table):
 
 
 def parse_log(path):
-    calls, apis, inject, hang, done = [], [], None, None, False
+    calls, apis, inject, hang, done, crash, killed = [], [], None, None, False, None, False
     try:
         for ln in open(path):
             t = ln.split()
@@ -130,11 +132,15 @@ def parse_log(path):
                 inject = int(t[1])
             elif t[0] == 'HANG':
                 hang = (int(t[1]), t[2] if len(t) > 2 else '?')
+            elif t[0] == 'CRASH':
+                crash = (int(t[1]), int(t[2]), t[3] if len(t) > 3 else '?')
+            elif t[0] == 'KILLED':
+                killed = True
             elif t[0] == 'DONE':
                 done = True
     except OSError:
         pass
-    return dict(calls=calls, apis=apis, inject=inject, hang=hang, done=done)
+    return dict(calls=calls, apis=apis, inject=inject, hang=hang, done=done, crash=crash, killed=killed)
 
 
 def run_case(exe, wd, tag, scen, n, rank, k, cls, watchdog):
@@ -271,7 +277,8 @@ def run_check(tier, seed):
                 # one position per distinct (site, call path, API, ranks, root/non-root), 3 classes
                 scen, n, rank, k = poss[rng.below(len(poss))]
                 others = [c for c in io_classes if c not in std3]
-                for cn in std3 + [rng.choice(others)]:
+                extra = [c for c in EXTRA_CLASSES.get(key[0].split('.')[0], []) if c in clsval and key[2] == 'open' and min(rank, 1) == 0]
+                for cn in std3 + [rng.choice([c for c in others if c not in extra])] + extra:
                     plan.append((scen, n, rank, k, cn, key))
         log('[S4] %d programs, %d transfer-call positions, %d distinct (site, path, API, ranks) keys, %d injections planned'
             % (len(base), positions, len(seen_keys), len(plan)))
@@ -329,7 +336,9 @@ def run_check(tier, seed):
         for m in metas:
             who = '%s n=%d rank=%d call#%d class=%s' % (m['scen'], m['n'], m['rank'], m['k'], m['cls'])
             hung = [(r, l['hang']) for r, l in enumerate(m['logs']) if l['hang'] is not None]
-            notdone = [r for r, l in enumerate(m['logs']) if not l['done'] and l['hang'] is None]
+            crashed = [(r, l['crash']) for r, l in enumerate(m['logs']) if l['crash'] is not None]
+            # no DONE, no HANG, not killed by mpiexec after another rank ended: died without a trace
+            notdone = [r for r, l in enumerate(m['logs']) if not l['done'] and l['hang'] is None and not l['killed']]
             if m['call'] is None:
                 if not hung and not notdone:
                     tie_diffs.append((who, 'the injection did not fire (the program made fewer transfer calls than in the baseline)'))
@@ -342,8 +351,12 @@ def run_check(tier, seed):
                           api_calls={str(r): [(a['label'], a['rc'], a['st']) for a in l['apis']] for r, l in enumerate(m['logs'])},
                           harness='harness/c11_fault.c <program> <file> <log> %d %d %d' % (m['rank'], m['k'], clsval[m['cls']]))
             if hung or notdone:
-                ksig = '%s@%s:%s' % ('hang' if hung else 'crash', site['func'] if site else '?',
-                                     next((h[1] for _, h in hung if h[1] != 'sync'), label))
+                def classify(hung, crashed, notdone):
+                    if crashed or notdone:
+                        return 'crash', (crashed[0][1][2] if crashed else label)
+                    return 'hang', next((h[1] for _, h in hung if h[1] != 'sync'), label)
+                kind, lab2 = classify(hung, crashed, notdone)
+                ksig = '%s@%s:%s' % (kind, site['func'] if site else '?', lab2)
                 if not any(kf['sig'] == ksig for kf in V.known) and ksig not in new_sigs:
                     # not a known finding: confirm with a generous watchdog before calling it a hang (loaded machine)
                     rc2, logs2, err2 = run_case(exe, wd, 'c%d' % m['i'], m['scen'], m['n'], m['rank'], m['k'], clsval[m['cls']], 45)
@@ -352,18 +365,23 @@ def run_check(tier, seed):
                         continue
                     m['logs'] = logs2
                     hung = [(r, l['hang']) for r, l in enumerate(logs2) if l['hang'] is not None]
-                    notdone = [r for r, l in enumerate(logs2) if not l['done'] and l['hang'] is None]
-                # ranks blocked INSIDE the API call in which the fault fired (label "sync" = that rank had returned
-                # and was waiting for the others)
-                inside = [(r, h) for r, h in hung if h[1] != 'sync']
-                kind = 'hang' if hung else 'crash'
-                lab2 = inside[0][1][1] if inside else label
+                    crashed = [(r, l['crash']) for r, l in enumerate(logs2) if l['crash'] is not None]
+                    notdone = [r for r, l in enumerate(logs2) if not l['done'] and l['hang'] is None and not l['killed']]
+                    kind, lab2 = classify(hung, crashed, notdone)
+                # hang: ranks blocked INSIDE the API call in which the fault fired (label "sync" = that rank had
+                # returned and was waiting for the others); crash: a rank died inside it
+                inside = [r for r, h in hung if h[1] != 'sync']
                 dist[kind] += 1
                 sig = '%s@%s:%s' % (kind, site['func'] if site else '?', lab2)
                 replay['blocked_ranks'] = [(r, h) for r, h in hung]
-                replay['unfinished_ranks'] = notdone
-                report(sig, 'a failure injected at %s (%s): rank(s) %s never return from API call %s (%s)' %
-                       (sid, who, [r for r, _ in inside] + notdone, lab2, kind), replay)
+                replay['crashed_ranks'] = [(r, c) for r, c in crashed] + [(r, 'no trace') for r in notdone if r not in [x for x, _ in crashed]]
+                replay['api_calls'] = {str(r): [(a['label'], a['rc'], a['st']) for a in l['apis']] for r, l in enumerate(m['logs'])}
+                if kind == 'crash':
+                    what = 'a failure injected at %s (%s): rank(s) %s die inside API call %s (signal %s)' % (
+                        sid, who, [r for r, _ in crashed] + notdone, lab2, crashed[0][1][0] if crashed else '?')
+                else:
+                    what = 'a failure injected at %s (%s): rank(s) %s never return from API call %s' % (sid, who, inside, lab2)
+                report(sig, what, replay)
                 distinct.add((sid, tuple(replay['chain']), lab2, kind))
                 continue
             if site is None or m.get('prob'):
